@@ -2091,7 +2091,7 @@ func runC03Round4(c *Ctx) {
 // default / its own goroutine), or every service shutdown in the collector runs while something receives from the channel.
 func runC20FatalDrain(c *Ctx) {
 	p := c.P
-	c.Rule("R14", "GO", "a fatal component error reported while the collector shuts the service down (a second one, or one caused by the shutdown) cannot block under the status reporter's lock: either the send on the async error channel is non-blocking / in a goroutine of its own, or every call of service.Shutdown in the collector is made while a goroutine started before it receives from that channel", 1)
+	c.Rule("R14", "GO", "a fatal component error reported while the collector shuts the service down (a second one, or one caused by the shutdown) cannot block under the status reporter's lock: either the send on the async error channel is non-blocking / in a goroutine of its own, or every call of service.Start and service.Shutdown in the collector is made while a goroutine started before it (directly or by a helper) receives from that channel – the run loop is not in its select at those moments", 1)
 	gpk := p.Pkg("service/internal/graph")
 	opk := p.Pkg("otelcol")
 	if gpk == nil || opk == nil {
@@ -2144,15 +2144,27 @@ func runC20FatalDrain(c *Ctx) {
 	for _, fn := range p.AllSrcFuncs(opk) {
 		for _, ci := range calls(fn, func(ci ssa.CallInstruction) bool {
 			f := calleeOf(ci)
-			return f != nil && f.FullName() == "(*"+modPrefix+"/service.Service).Shutdown"
+			return f != nil && (f.FullName() == "(*"+modPrefix+"/service.Service).Shutdown" || f.FullName() == "(*"+modPrefix+"/service.Service).Start")
 		}) {
 			n++
 			covered := false
+			var gos []*ssa.Go
 			allInstrs(fn, func(in ssa.Instruction) {
-				g, ok := in.(*ssa.Go)
-				if !ok || !instrDominates(g, ci.(ssa.Instruction)) {
-					return
+				if g, ok := in.(*ssa.Go); ok && instrDominates(g, ci.(ssa.Instruction)) {
+					gos = append(gos, g)
 				}
+				// … or a helper of the collector, called before, that starts the receiving goroutine
+				if hc, ok := in.(ssa.CallInstruction); ok && instrDominates(in, ci.(ssa.Instruction)) {
+					if hf := staticCalleeFn(hc); hf != nil && hf.Pkg == fn.Pkg && hf != fn {
+						allInstrs(hf, func(hi ssa.Instruction) {
+							if g, ok := hi.(*ssa.Go); ok {
+								gos = append(gos, g)
+							}
+						})
+					}
+				}
+			})
+			for _, g := range gos {
 				var body *ssa.Function
 				switch v := g.Call.Value.(type) {
 				case *ssa.MakeClosure:
@@ -2161,7 +2173,7 @@ func runC20FatalDrain(c *Ctx) {
 					body = v
 				}
 				if body == nil {
-					return
+					continue
 				}
 				allInstrs(body, func(bi ssa.Instruction) {
 					recvFrom := func(v ssa.Value) bool {
@@ -2185,8 +2197,12 @@ func runC20FatalDrain(c *Ctx) {
 						}
 					}
 				})
-			})
-			c.Check(covered, fmt.Sprintf("service shutdown #%d in %s runs while the async error channel is received", n, fnName(fn)), p.Pos(ci.Pos()), "a goroutine started before the call receives from the channel", "nothing receives from the async error channel while the service is shut down, and the send in Host.NotifyComponentStatusChange blocks under the status reporter's lock: when the three instances of a shared receiver (or two components) fail fatally, the first error makes the run loop shut down, the second report blocks for ever holding the lock, graph.ShutdownAll waits for the lock – Run never returns and the collector stays in Closing")
+			}
+			what := "shutdown"
+			if isMethod(calleeOf(ci), pkgService, "Service", "Start") {
+				what = "start"
+			}
+			c.Check(covered, fmt.Sprintf("service %s #%d in %s runs while the async error channel is received", what, n, fnName(fn)), p.Pos(ci.Pos()), "a goroutine started before the call receives from the channel", "nothing receives from the async error channel while the service is shut down, and the send in Host.NotifyComponentStatusChange blocks under the status reporter's lock: when the three instances of a shared receiver (or two components) fail fatally, the first error makes the run loop shut down, the second report blocks for ever holding the lock, graph.ShutdownAll waits for the lock – Run never returns and the collector stays in Closing")
 		}
 	}
 	if n == 0 {
@@ -2223,6 +2239,49 @@ var (
 	svcShutProg     *Prog
 	svcShutWrappers map[*types.Func]bool
 )
+
+var (
+	svcStartProg     *Prog
+	svcStartWrappers map[*types.Func]bool
+)
+
+// isServiceStartFn: (*service.Service).Start itself, or a function of package otelcol every path of which calls it.
+func isServiceStartFn(p *Prog, f *types.Func) bool {
+	if f == nil {
+		return false
+	}
+	if isMethod(f, pkgService, "Service", "Start") {
+		return true
+	}
+	if svcStartProg != p {
+		svcStartProg = p
+		svcStartWrappers = map[*types.Func]bool{}
+		if opk := p.ByPath[pkgOtelcol]; opk != nil {
+			for _, fn := range p.AllSrcFuncs(opk) {
+				if fn.Parent() != nil || fn.Object() == nil {
+					continue
+				}
+				sd := callsNamed(fn, func(g *types.Func) bool { return isMethod(g, pkgService, "Service", "Start") })
+				if len(sd) != 1 {
+					continue
+				}
+				var rets []ssa.Instruction
+				for _, r := range returnsOf(fn) {
+					rets = append(rets, r)
+				}
+				other := callsNamed(fn, func(g *types.Func) bool {
+					return g.Pkg() != nil && g.Pkg().Path() == pkgOtelcol && (g.Name() == "setCollectorState" || g.Name() == "setupConfigurationComponents") || isMethod(g, pkgService, "Service", "Shutdown")
+				})
+				if ok, _ := mustPassThrough(fn, nil, map[ssa.Instruction]bool{sd[0].(ssa.Instruction): true}, rets); ok && len(other) == 0 {
+					if tf, isF := fn.Object().(*types.Func); isF {
+						svcStartWrappers[tf] = true
+					}
+				}
+			}
+		}
+	}
+	return svcStartWrappers[f]
+}
 
 // isServiceShutdownFn: (*service.Service).Shutdown itself, or a function of package otelcol every path of which calls it
 // (the collector's helper that shuts the service down while it keeps receiving asynchronous errors).
@@ -2367,5 +2426,171 @@ func runC18TickerRearm(c *Ctx) {
 	}
 	if n == 0 {
 		c.Undecided("goroutine paced by a ticker that Shutdown stops", "-", "not found")
+	}
+}
+
+// provablyNonNilSlice: a slice value that cannot be nil whatever the inputs are (make, a literal, a slice of those).
+func provablyNonNilSlice(v ssa.Value, depth int) bool {
+	switch x := v.(type) {
+	case *ssa.MakeSlice:
+		return true
+	case *ssa.Slice:
+		if _, ok := x.X.(*ssa.Alloc); ok {
+			return true
+		}
+		if pt, ok := x.X.Type().(*types.Pointer); ok {
+			if _, isArr := pt.Elem().Underlying().(*types.Array); isArr {
+				return true
+			}
+		}
+		return provablyNonNilSlice(x.X, depth)
+	case *ssa.Phi:
+		for _, e := range x.Edges {
+			if !provablyNonNilSlice(e, depth) {
+				return false
+			}
+		}
+		return len(x.Edges) > 0
+	case *ssa.ChangeType:
+		return provablyNonNilSlice(x.X, depth)
+	case *ssa.Convert:
+		return provablyNonNilSlice(x.X, depth)
+	case *ssa.Extract:
+		// (*base64.Encoding).DecodeString returns a prefix of a buffer it made: never nil (also for "")
+		if call, ok := x.Tuple.(*ssa.Call); ok && x.Index == 0 {
+			if f := call.Call.StaticCallee(); f != nil && f.Object() != nil && f.Object().(*types.Func).FullName() == "(*encoding/base64.Encoding).DecodeString" {
+				return true
+			}
+		}
+		return false
+	case *ssa.Call:
+		if depth >= 1 {
+			return false
+		}
+		if b, ok := x.Call.Value.(*ssa.Builtin); ok && b.Name() == "append" {
+			return provablyNonNilSlice(x.Call.Args[0], depth)
+		}
+		cf := x.Call.StaticCallee()
+		if cf == nil || cf.Blocks == nil {
+			return false
+		}
+		for _, r := range returnsOf(cf) {
+			rs := resultsOf(r)
+			if len(rs) != 1 || !provablyNonNilSlice(rs[0], depth+1) {
+				return false
+			}
+		}
+		return true
+	}
+	return false
+}
+
+// ---------- C15.R10 / R11 ----------
+func runC15Round5(c *Ctx) {
+	p := c.P
+	c.Rule("R10", "DEP", "the Retry-After header written for a throttling consumer error never under-states the delay: delay-seconds is a whole number, so its computation from the duration rounds up (a remainder test, a ceiling, or an added second minus one) – a plain integer quotient tells the sender to come back earlier than the consumer asked (900ms → `0`)", 1)
+	rpk := p.Pkg("receiver/otlpreceiver")
+	if rpk == nil {
+		c.Anchor("receiver/otlpreceiver")
+	} else {
+		n := 0
+		for _, fn := range p.AllSrcFuncs(rpk) {
+			for _, ci := range callsNamed(fn, func(f *types.Func) bool { return f.FullName() == "(net/http.Header).Set" }) {
+				args := ci.Common().Args
+				if k, ok := constString(args[len(args)-2]); !ok || k != "Retry-After" {
+					continue
+				}
+				n++
+				up := false
+				for v := range backSlice(args[len(args)-1]) {
+					switch x := v.(type) {
+					case *ssa.BinOp:
+						if x.Op == token.REM {
+							up = true
+						}
+					case *ssa.Call:
+						if f := calleeOf(x); f != nil && f.Pkg() != nil && f.Pkg().Path() == "math" && f.Name() == "Ceil" {
+							up = true
+						}
+					}
+				}
+				// the remainder test may also sit in the control flow (seconds++ under `if d%time.Second > 0`)
+				if !up {
+					for v := range backSlice(args[len(args)-1]) {
+						if ph, ok := v.(*ssa.Phi); ok {
+							for _, pr := range ph.Block().Preds {
+								for _, g := range append(guardsOf(pr), guardsOf(ph.Block())...) {
+									for gv := range backSlice(g.Cond) {
+										if bo, ok := gv.(*ssa.BinOp); ok && bo.Op == token.REM {
+											up = true
+										}
+									}
+								}
+							}
+						}
+					}
+				}
+				c.Check(up, "Retry-After written in "+fnName(fn)+" rounds the delay up", p.Pos(ci.Pos()), "remainder test / ceiling in the computation of delay-seconds", "delay-seconds is the integer quotient of the delay: a consumer that asks for 900ms gets `Retry-After: 0`, 1.9s gets `1` – the OTLP/HTTP exporter retries earlier than the consumer asked (the gRPC path carries the exact duration)")
+			}
+		}
+		if n == 0 {
+			c.Undecided("Retry-After header write in the OTLP/HTTP receiver", "-", "not found")
+		}
+	}
+
+	c.Rule("R11", "GATE", "once the server answered 2xx the request is never sent again: on the 2xx side of the OTLP/HTTP exporter's status test every return is nil or a permanent error – a problem with the response body (it can only carry partial-success information) must not come back as a plain, retryable error", 1)
+	epk := p.Pkg("exporter/otlphttpexporter")
+	if epk == nil {
+		c.Anchor("exporter/otlphttpexporter")
+		return
+	}
+	n := 0
+	for _, fn := range p.AllSrcFuncs(epk) {
+		if fn.Parent() != nil {
+			continue
+		}
+		allInstrs(fn, func(in ssa.Instruction) {
+			iff, ok := in.(*ssa.If)
+			if !ok {
+				return
+			}
+			bo, ok := iff.Cond.(*ssa.BinOp)
+			if !ok || (bo.Op != token.LEQ && bo.Op != token.LSS) {
+				return
+			}
+			k, isK := constInt(bo.Y)
+			if !isK || (k != 299 && k != 300) {
+				return
+			}
+			isCode := false
+			for v := range backSlice(bo.X) {
+				if fa, ok := v.(*ssa.FieldAddr); ok && derefStruct(fa.X.Type()).Field(fa.Field).Name() == "StatusCode" {
+					isCode = true
+				}
+			}
+			if !isCode {
+				return
+			}
+			okSide := iff.Block().Succs[0]
+			for _, r := range returnsOf(fn) {
+				if !(okSide == r.Block() || okSide.Dominates(r.Block())) {
+					continue
+				}
+				n++
+				res := resultsOf(r)
+				good := len(res) == 0 || isNilConst(res[len(res)-1])
+				if !good {
+					if call, ok := res[len(res)-1].(*ssa.Call); ok {
+						if f := calleeOf(call); f != nil && f.Name() == "NewPermanent" {
+							good = true
+						}
+					}
+				}
+				c.Check(good, fmt.Sprintf("return #%d on the 2xx side of %s does not ask for a retry", n, fnName(fn)), p.Pos(r.Pos()), "nil or permanent", "after a 2xx answer the function returns a plain error (an unreadable or unparsable response body): the exporter helper treats it as retryable and sends the request again although the server accepted it – the backend in the reproduction stored the same request 20 times")
+			}
+		})
+	}
+	if n == 0 {
+		c.Undecided("2xx side of the OTLP/HTTP exporter's status test", "-", "not found")
 	}
 }
